@@ -94,6 +94,16 @@ IDC_REQ = ('tables_describe_the_op_list', 'self.describes(ops@)')
 IDC_ENS = ('every_candidate_is_a_forward_add_with_a_sound_fusion', 'forall|k: usize| #[trigger] ret@.dom().contains(k) ==> cand_ok(self, ops@, k, ret@[k])')
 
 
+SU_REQ = [('fresh_counts', 'old(self).use_counts@ == Map::<WitnessId, usize>::empty()'),
+          ('realistic_sizes', 'ops@.len() < 0x1000_0000 && forall|k: int| 0 <= k < ops@.len() ==> npo_in_elems(#[trigger] ops@[k]) < 0x10_0000')]
+SU_ENS = [('counts_every_relation_read', 'forall|w: WitnessId| #[trigger] cnt(final(self).use_counts@, w) == uses_upto(ops@, ops@.len() as int, w)'),
+          ('frame', 'final(self).defs == old(self).defs && final(self).backwards_computed == old(self).backwards_computed && final(self).input_slots == old(self).input_slots')]
+SD_REQ = [('fresh', 'old(self).defs@ == Map::<WitnessId, IndexedDef<F>>::empty()'),
+          ('told_every_private_input_slot', 'forall|w: WitnessId| #[trigger] is_private_input_slot(w) ==> old(self).input_slots@.contains(w)')]
+SD_ENS = [('defs_describe_the_op_list', 'final(self).defs_inv(ops@, ops@.len() as int)'),
+          ('frame', 'final(self).use_counts == old(self).use_counts && final(self).input_slots == old(self).input_slots')]
+
+
 def types_from_repo():
     t = []
     t.append('#[derive(Clone, Copy, PartialEq, Eq, Hash, Structural)]\n' + extract_item('circuit/src/types.rs', r'pub struct WitnessId\b'))
@@ -172,10 +182,10 @@ def build():
                'if *kind == AluOpKind::HornerAcc { if let Some(acc) = intermediate_out { proof { assert(cnt(uc0, *acc) <= 0x10_0004 * oi_); } let cur_ = match self.use_counts.get(acc) { Some(v_) => *v_, None => 0 }; self.use_counts.insert(*acc, cur_ + 1); } }')
     su.rewrite('R5', 'for &id in inputs.iter().flatten() { *self.use_counts.entry(id).or_default() += 1; }',
                'for gi_ in 0..inputs.len() { for wi_ in 0..inputs[gi_].len() { let id = inputs[gi_][wi_]; let ghost m_prev = self.use_counts@; proof { assert(cnt(uc0, id) <= 0x10_0004 * oi_); lemma_occ2_bound(gdone, id); lemma_occ_bound(acc, id); } let cur_ = match self.use_counts.get(&id) { Some(v_) => *v_, None => 0 }; proof { assert(cur_ as int == cnt(self.use_counts@, id)); assert(acc.len() == wi_); } self.use_counts.insert(id, cur_ + 1); } }')
-    su.requires('fresh_counts', 'old(self).use_counts@ == Map::<WitnessId, usize>::empty()')
-    su.requires('realistic_sizes', 'ops@.len() < 0x1000_0000 && forall|k: int| 0 <= k < ops@.len() ==> npo_in_elems(#[trigger] ops@[k]) < 0x10_0000')
-    su.ensures('counts_every_relation_read', 'forall|w: WitnessId| #[trigger] cnt(final(self).use_counts@, w) == uses_upto(ops@, ops@.len() as int, w)')
-    su.ensures('frame', 'final(self).defs == old(self).defs && final(self).backwards_computed == old(self).backwards_computed')
+    for c_ in SU_REQ:
+        su.requires(*c_)
+    for c_ in SU_ENS:
+        su.ensures(*c_)
     su.loop('for oi_ in 0..ops.len()', invariants=[
         ('frame', 'self.defs == old(self).defs && self.backwards_computed == old(self).backwards_computed && ops@.len() < 0x1000_0000 && forall|k: int| 0 <= k < ops@.len() ==> npo_in_elems(#[trigger] ops@[k]) < 0x10_0000'),
         ('count', 'forall|w: WitnessId| #[trigger] cnt(self.use_counts@, w) == uses_upto(ops@, oi_ as int, w)'),
@@ -228,14 +238,16 @@ def build():
     # ---------------------------------------------------------------- scan_defs
     sd = u.extract(FM, IMPL, 'scan_defs', 'MulAddFusion::scan_defs')
     sd.rewrite('R5', 'for (idx, op) in ops.iter().enumerate() {', 'for idx in 0..ops.len() { let op = &ops[idx];')
-    sd.rewrite('R5', 'for &id in outputs.iter().flatten() { self.insert_def(id, idx, OpDef::Other); }',
-               'for gi_ in 0..outputs.len() { for wi_ in 0..outputs[gi_].len() { let id = outputs[gi_][wi_]; let ghost dpre = self.defs@; self.insert_def(id, idx, OpDef::Other); } }')
-    sd.rewrite('R5', 'for &id in outputs { self.insert_def(id, idx, OpDef::Other); }',
-               'for hi_ in 0..outputs.len() { let id = outputs[hi_]; let ghost dpre = self.defs@; self.insert_def(id, idx, OpDef::Other); }')
-    sd.requires('fresh', 'old(self).defs@ == Map::<WitnessId, IndexedDef<F>>::empty()')
-    sd.ensures('defs_describe_the_op_list', 'final(self).defs_inv(ops@, ops@.len() as int)')
-    sd.ensures('frame', 'final(self).use_counts == old(self).use_counts && final(self).input_slots == old(self).input_slots')
-    sd.requires('told_every_private_input_slot', 'forall|w: WitnessId| #[trigger] is_private_input_slot(w) ==> old(self).input_slots@.contains(w)')
+    sd.rewrite_re('R5', r'for &id in outputs\.iter\(\)\.flatten\(\) \{\s*self\.insert_def\(id, idx, OpDef::Other\);\s*\}',
+                  'for gi_ in 0..outputs.len() { for wi_ in 0..outputs[gi_].len() { let id = outputs[gi_][wi_]; let ghost dpre = self.defs@; self.insert_def(id, idx, OpDef::Other); /*@npo*/ } }', min_count=0)
+    sd.rewrite_re('R5', r'for &id in outputs \{\s*self\.insert_def\(id, idx, OpDef::Other\);\s*\}',
+                  'for hi_ in 0..outputs.len() { let id = outputs[hi_]; let ghost dpre = self.defs@; self.insert_def(id, idx, OpDef::Other); /*@hint*/ }', min_count=0)
+    # `set.extend(v.iter().copied())` -> trait stub ExtendCopied (the set grows by the elements of v)
+    sd.rewrite_re('R6', r'([\w.]+)\.extend\((\w+)\.iter\(\)\.copied\(\)\);', r'\1.extend_copied(\2);', min_count=0)
+    for c_ in SD_REQ:
+        sd.requires(*c_)
+    for c_ in SD_ENS:
+        sd.ensures(*c_)
     sd.loop('for idx in 0..ops.len()', invariants=[('frame', 'self.use_counts == old(self).use_counts && self.input_slots == old(self).input_slots && forall|w: WitnessId| #[trigger] is_private_input_slot(w) ==> old(self).input_slots@.contains(w)'), ('defs', 'dinv(self.defs@, ops@, idx as int)')])
     sd.after('let op = &ops[idx];', 'let ghost d0 = self.defs@; let ghost n = idx as int; let ghost mut ex: WSet = wnone();')
     # Const arm
@@ -280,42 +292,45 @@ def build():
                     lemma_close(self.defs@, ops@, n, wadd(wnone(), *out), false);
                 }''')
     # NPO arm
-    sd.before('for gi_ in 0..outputs.len()', 'proof { lemma_open(d0, ops@, n); }')
-    sd.loop('for gi_ in 0..outputs.len()', invariants=[
-        ('frame', 'self.use_counts == old(self).use_counts && self.input_slots == old(self).input_slots && n == idx && idx < ops@.len() && ops@.len() <= usize::MAX'),
-        ('partial', 'pinv(self.defs@, ops@, n, ex, false)'),
-        ('covered', 'forall|i: int, j: int| 0 <= i < gi_ && 0 <= j < outputs@[i]@.len() ==> ex(#[trigger] outputs@[i]@[j])'),
-    ])
-    sd.loop('for wi_ in 0..outputs[gi_].len()', invariants=[
-        ('frame', 'self.use_counts == old(self).use_counts && self.input_slots == old(self).input_slots && n == idx && idx < ops@.len() && ops@.len() <= usize::MAX && gi_ < outputs@.len()'),
-        ('partial', 'pinv(self.defs@, ops@, n, ex, false)'),
-        ('covered', '''(forall|i: int, j: int| 0 <= i < gi_ && 0 <= j < outputs@[i]@.len() ==> ex(#[trigger] outputs@[i]@[j]))
-                && forall|j: int| 0 <= j < wi_ ==> ex(#[trigger] outputs@[gi_ as int]@[j])'''),
-    ])
-    sd.after('let ghost dpre = self.defs@; self.insert_def(id, idx, OpDef::Other);', 'proof { let e0 = ex; lemma_ins(dpre, ops@, n, e0, false, id, OpDef::<F>::Other); ex = wadd(e0, id); }')
-    sd.after_enclosing_block('for wi_ in 0..outputs[gi_].len()', '''proof {
-                        assert forall|w: WitnessId| #[trigger] definer(ops@[n], w) implies ex(w) by {
-                            let i = choose|i: int| 0 <= i < outputs@.len() && (#[trigger] outputs@[i])@.contains(w);
-                            let j = choose|j: int| 0 <= j < outputs@[i]@.len() && outputs@[i]@[j] == w;
-                            assert(ex(outputs@[i]@[j]));
-                        }
-                        lemma_close(self.defs@, ops@, n, ex, false);
-                    }''')
+    if 'for gi_ in 0..outputs.len()' in sd.body:
+      sd.before('for gi_ in 0..outputs.len()', 'proof { lemma_open(d0, ops@, n); }')
+      sd.loop('for gi_ in 0..outputs.len()', invariants=[
+          ('frame', 'self.use_counts == old(self).use_counts && self.input_slots == old(self).input_slots && n == idx && idx < ops@.len() && ops@.len() <= usize::MAX'),
+          ('partial', 'pinv(self.defs@, ops@, n, ex, false)'),
+          ('covered', 'forall|i: int, j: int| 0 <= i < gi_ && 0 <= j < outputs@[i]@.len() ==> ex(#[trigger] outputs@[i]@[j])'),
+      ])
+      sd.loop('for wi_ in 0..outputs[gi_].len()', invariants=[
+          ('frame', 'self.use_counts == old(self).use_counts && self.input_slots == old(self).input_slots && n == idx && idx < ops@.len() && ops@.len() <= usize::MAX && gi_ < outputs@.len()'),
+          ('partial', 'pinv(self.defs@, ops@, n, ex, false)'),
+          ('covered', '''(forall|i: int, j: int| 0 <= i < gi_ && 0 <= j < outputs@[i]@.len() ==> ex(#[trigger] outputs@[i]@[j]))
+                  && forall|j: int| 0 <= j < wi_ ==> ex(#[trigger] outputs@[gi_ as int]@[j])'''),
+      ])
+      sd.body = sd.body.replace('/*@npo*/', 'proof { let e0 = ex; lemma_ins(dpre, ops@, n, e0, false, id, OpDef::<F>::Other); ex = wadd(e0, id); }')
+      sd.after_enclosing_block('for wi_ in 0..outputs[gi_].len()', '''proof {
+                          assert forall|w: WitnessId| #[trigger] definer(ops@[n], w) implies ex(w) by {
+                              let i = choose|i: int| 0 <= i < outputs@.len() && (#[trigger] outputs@[i])@.contains(w);
+                              let j = choose|j: int| 0 <= j < outputs@[i]@.len() && outputs@[i]@[j] == w;
+                              assert(ex(outputs@[i]@[j]));
+                          }
+                          lemma_close(self.defs@, ops@, n, ex, false);
+                      }''')
     # Hint arm
-    sd.before('for hi_ in 0..outputs.len()', 'proof { lemma_open(d0, ops@, n); }')
-    sd.loop('for hi_ in 0..outputs.len()', invariants=[
-        ('frame', 'self.use_counts == old(self).use_counts && self.input_slots == old(self).input_slots && n == idx && idx < ops@.len() && ops@.len() <= usize::MAX'),
-        ('partial', 'pinv(self.defs@, ops@, n, ex, false)'),
-        ('covered', 'forall|j: int| 0 <= j < hi_ ==> ex(#[trigger] outputs@[j])'),
-    ])
-    sd.after('let ghost dpre = self.defs@; self.insert_def(id, idx, OpDef::Other);', 'proof { let e0 = ex; lemma_ins(dpre, ops@, n, e0, false, id, OpDef::<F>::Other); ex = wadd(e0, id); }', nth=1)
-    sd.after_enclosing_block('let id = outputs[hi_];', '''proof {
-                        assert forall|w: WitnessId| #[trigger] definer(ops@[n], w) implies ex(w) by {
-                            let j = choose|j: int| 0 <= j < outputs@.len() && outputs@[j] == w;
-                            assert(ex(outputs@[j]));
-                        }
-                        lemma_close(self.defs@, ops@, n, ex, false);
-                    }''')
+    if 'for hi_ in 0..outputs.len()' in sd.body:
+      sd.before('for hi_ in 0..outputs.len()', 'proof { lemma_open(d0, ops@, n); }')
+      sd.loop('for hi_ in 0..outputs.len()', invariants=[
+          ('frame', 'self.use_counts == old(self).use_counts && self.input_slots == old(self).input_slots && n == idx && idx < ops@.len() && ops@.len() <= usize::MAX'),
+          ('partial', 'pinv(self.defs@, ops@, n, ex, false)'),
+          ('covered', 'forall|j: int| 0 <= j < hi_ ==> ex(#[trigger] outputs@[j])'),
+      ])
+      sd.body = sd.body.replace('/*@hint*/', 'proof { let e0 = ex; lemma_ins(dpre, ops@, n, e0, false, id, OpDef::<F>::Other); ex = wadd(e0, id); }')
+      sd.after_enclosing_block('let id = outputs[hi_];', '''proof {
+                          assert forall|w: WitnessId| #[trigger] definer(ops@[n], w) implies ex(w) by {
+                              let j = choose|j: int| 0 <= j < outputs@.len() && outputs@[j] == w;
+                              assert(ex(outputs@[j]));
+                          }
+                          lemma_close(self.defs@, ops@, n, ex, false);
+                      }''')
+
 
     # ---------------------------------------------------------------- try_fuse
     tf = u.extract(FM, IMPL, 'try_fuse', 'MulAddFusion::try_fuse')
@@ -348,6 +363,11 @@ def build():
         ])
 
     u.text(CAND_OK)
+    u.text('''verus! {
+/// `set.extend(v.iter().copied())`
+pub trait ExtendCopied { spec fn elems(&self) -> Set<WitnessId>; fn extend_copied(&mut self, v: &Vec<WitnessId>) ensures final(self).elems() == old(self).elems().union(v@.to_set()); }
+impl ExtendCopied for HashSet<WitnessId> { open spec fn elems(&self) -> Set<WitnessId> { self@ } #[verifier::external_body] fn extend_copied(&mut self, v: &Vec<WitnessId>) { unimplemented!() } }
+}''')
     u.text('''verus! {
 pub proof fn lemma_occ_bound(s: Seq<WitnessId>, w: WitnessId) ensures 0 <= occ(s, w) <= s.len() decreases s.len() { if s.len() > 0 { lemma_occ_bound(s.drop_last(), w); } }
 pub proof fn lemma_occ_bound_all() ensures forall|s: Seq<WitnessId>, w: WitnessId| 0 <= #[trigger] occ(s, w) <= s.len()
